@@ -112,6 +112,38 @@ def write_sources(root, rnd, variant):
     return marks
 
 
+def write_router_sources(root, rnd):
+    """helper.py (as above) and rmain.py: a Router whose method bodies and a subroutine they call carry the markers"""
+    marks = write_sources(root, rnd, "plain")
+    marks = {k: v for k, v in marks.items() if v[0] == "helper.py"}
+    counter = [2000]
+    r = ["import pyteal as pt", "import helper", "", "", "def build():",
+         "    router = pt.Router('gen', pt.BareCallActions(no_op=pt.OnCompleteAction.create_only(pt.Approve())), clear_state=pt.Approve())", ""]
+
+    def m(text):
+        counter[0] += 1
+        r.append(text.replace("@", "pt.Int(%d)" % counter[0]))
+        marks[counter[0]] = ("rmain.py", len(r))
+    r += ["    @router.method", "    def first(a: pt.abi.Uint64, *, output: pt.abi.Uint64):", "        return pt.Seq("]
+    m("            pt.Assert(a.get() > @),")
+    m("            pt.Pop(helper.helper(@)),")
+    m("            output.set(a.get() + @),")
+    r += ["        )", "", "    @router.method(no_op=pt.CallConfig.CALL, opt_in=pt.CallConfig.CALL)", "    def second(b: pt.abi.Uint64, c: pt.abi.String):",
+          "        x = pt.ScratchVar()", "        return pt.Seq("]
+    m("            x.store(@),")
+    m("            pt.If(b.get() > @).Then(")
+    m("                pt.Pop(c.length() + @)")
+    r.append("            ),")
+    m("            pt.Pop(pt.Cond([x.load(), @],")
+    m("                           [pt.Int(1), @])),")
+    for _ in range(rnd.choice((0, 2))):
+        m("            pt.Pop(@),")
+    r += ["        )", "", "    return router"]
+    with open(os.path.join(root, "rmain.py"), "w") as f:
+        f.write("\n".join(r) + "\n")
+    return marks
+
+
 def count_lines(path):
     try:
         with open(path) as f:
@@ -143,6 +175,35 @@ for spec in json.loads(sys.argv[1]):
         mem.append(None if e is None else {"file": e.source, "sline": e.source_line, "scol": e.source_column})
     out.append({"spec": spec, "teal": b.teal, "plain": plain, "json": j, "mem": mem, "nentries": len(r3.entries),
                 "annotated": b.sourcemap.annotated_teal if ann else None,
+                "back_equal": sorted((k, (e.source, e.source_line, e.source_column)) for k, e in back.entries.items())
+                              == sorted((k, (e.source, e.source_line, e.source_column)) for k, e in r3.entries.items())})
+print(json.dumps(out))
+'''
+
+
+RCHILD = r'''
+import sys, json, os
+sys.path.insert(0, os.environ.get("VERIF_REPO", "/repo")); sys.path.insert(0, os.getcwd())
+from feature_gates import FeatureGates
+FeatureGates.set_sourcemap_enabled(True)
+import pyteal as pt
+import rmain
+out = []
+for spec in json.loads(sys.argv[1]):
+    v, ann, hdr, conc, ac = spec
+    res = rmain.build().compile(version=v, assemble_constants=ac, with_sourcemaps=True, approval_filename="a.teal", clear_filename="c.teal",
+                                annotate_teal=ann, annotate_teal_headers=hdr, annotate_teal_concise=conc)
+    sm = res.approval_sourcemap
+    r3 = sm.r3_sourcemap
+    j = r3.to_json()
+    back = pt.R3SourceMap.from_json(j, target="\n".join(r3.file_lines))
+    teal = res.approval_teal
+    mem = []
+    for k in range(len(teal.split("\n"))):
+        e = r3.entries.get((k, 0))
+        mem.append(None if e is None else {"file": e.source, "sline": e.source_line, "scol": e.source_column})
+    out.append({"spec": spec, "teal": teal, "plain": teal, "json": j, "mem": mem, "nentries": len(r3.entries),
+                "annotated": sm.annotated_teal if ann else None,
                 "back_equal": sorted((k, (e.source, e.source_line, e.source_column)) for k, e in back.entries.items())
                               == sorted((k, (e.source, e.source_line, e.source_column)) for k, e in r3.entries.items())})
 print(json.dumps(out))
@@ -194,18 +255,18 @@ def main_():
     specs = [(6, False, False, False, False), (8, True, True, False, False), (8, True, False, True, False), (9, True, True, True, False), (8, False, False, False, True)]
     if tier == "thorough":
         specs += [(v, a, h, c, ac) for v in (5, 7, 10) for a, h, c in ((True, True, False), (False, False, False)) for ac in (False, True)]
-    variants = ["plain", "cond", "long", "repeat"] if tier == "quick" else ["plain", "cond", "long", "repeat", "plain", "cond", "repeat", "cond"]
+    variants = ["plain", "cond", "long", "repeat", "router"] if tier == "quick" else ["plain", "cond", "long", "repeat", "router", "plain", "cond", "repeat", "cond", "router"]
     for vi, variant in enumerate(variants):
         root = os.path.join(work, "p%d" % vi)
-        marks = write_sources(root, rnd, variant)
+        marks = write_router_sources(root, rnd) if variant == "router" else write_sources(root, rnd, variant)
         with open(os.path.join(root, "driver.py"), "w") as f:       # a real file: PyTeal's frame inspection needs one
-            f.write(CHILD)
+            f.write(RCHILD if variant == "router" else CHILD)
         p = subprocess.run([sys.executable, "-B", "driver.py", json.dumps(specs)], cwd=root, capture_output=True, text=True,
                            env=dict(os.environ, PYTHONDONTWRITEBYTECODE="1", VERIF_REPO=replay.REPO))
         if p.returncode != 0:
             chk.report("C15/compile-with-sourcemap-failed/%s" % variant, "compiling the generated module with a source map failed: %s" % p.stderr[-600:], {"variant": variant})
             continue
-        nl = {f: len(open(os.path.join(root, f)).read().split("\n")) - 1 for f in ("main.py", "helper.py")}
+        nl = {f: len(open(os.path.join(root, f)).read().split("\n")) - 1 for f in ("rmain.py" if variant == "router" else "main.py", "helper.py")}
         for res in json.loads(p.stdout):
             what = "%s %r" % (variant, res["spec"])
             if res["teal"] != res["plain"]:
